@@ -1,3 +1,4 @@
+import asyncio
 import collections
 import contextvars
 
@@ -26,6 +27,12 @@ def queued(evaluator_class):  # noqa: D417
 
         self.queue = collections.deque(queue[:])
         self.queue_pop_per_task = queue_pop_per_task
+        if self.queue_pop_per_task > len(self.queue):
+            raise ValueError(
+                f"{queue_pop_per_task=} is larger than the number of queued resources "
+                f"({len(self.queue)})."
+            )
+        self._queue_waiters = []  # Futures of the jobs waiting for resources to be returned.
 
     def get_run_function_kwargs(self):
         # The static keyword arguments plus the resources dequed for the job of the current task.
@@ -39,13 +46,28 @@ def queued(evaluator_class):  # noqa: D417
         self._run_function_kwargs = run_function_kwargs
 
     async def execute(self, job):
+        # Wait until enough resources have been returned to the queue.
+        while len(self.queue) < self.queue_pop_per_task:
+            waiter = asyncio.get_running_loop().create_future()
+            self._queue_waiters.append(waiter)
+            try:
+                await waiter
+            finally:
+                self._queue_waiters.remove(waiter)
+
         dequed = [self.queue.popleft() for _ in range(self.queue_pop_per_task)]
         _DEQUED.set(dequed)
 
-        job = await evaluator_class.execute(self, job)
-        job.metadata["dequed"] = ",".join((str(item) for item in dequed))
-
-        self.queue.extend(dequed)
+        try:
+            job = await evaluator_class.execute(self, job)
+            job.metadata["dequed"] = ",".join((str(item) for item in dequed))
+        finally:
+            # Return the resources (also when the evaluation is cancelled) and wake up the waiting
+            # jobs, each of them checks again if enough resources are available.
+            self.queue.extend(dequed)
+            for waiter in self._queue_waiters:
+                if not waiter.done():
+                    waiter.set_result(None)
 
         return job
 
